@@ -11,6 +11,12 @@ const CAP: usize = 1 << 16;
 static mut BUF: [[u8; CAP]; SLOTS] = [[0; CAP]; SLOTS];
 static LEN: [AtomicUsize; SLOTS] = [const { AtomicUsize::new(0) }; SLOTS];
 static NEXT: AtomicUsize = AtomicUsize::new(0);
+static ARMED: std::sync::atomic::AtomicBool = std::sync::atomic::AtomicBool::new(false);
+
+/// Whether [`arm`] has been called (the campaign drivers then record every case before executing it).
+pub fn armed() -> bool {
+    ARMED.load(Ordering::Relaxed)
+}
 static mut PATH_PREFIX: [u8; 512] = [0; 512];
 static PATH_LEN: AtomicUsize = AtomicUsize::new(0);
 
@@ -65,6 +71,7 @@ extern "C" fn handler(sig: libc::c_int) {
 
 /// Installs the handlers. `property` names the dump files.
 pub fn arm(property: &str) {
+    ARMED.store(true, Ordering::Relaxed);
     let dir = crate::verif_root().join("replays");
     let _ = std::fs::create_dir_all(&dir);
     // stale dumps of earlier runs would be misattributed
